@@ -64,7 +64,10 @@ def replay(case) -> dict:
                 both = both.subset([1, 0])
             comps = [(both, tmpl)]
         elif cfg["second"] == "other_component":
-            comps = [(m1, tmpl), (Molecules(p2[None, :]), tmpl.copy())]
+            from acryo import pipe
+
+            # the second component's density is given as an ImageProvider at the simulator's own scale: the same image
+            comps = [(m1, tmpl), (Molecules(p2[None, :]), pipe.from_array(tmpl.copy(), original_scale=scale))]
             if order_flip:
                 comps = comps[::-1]
         else:
